@@ -56,6 +56,7 @@ type task struct {
 	yields     int
 	held       bool
 	lastSite   uintptr
+	s          *Sched
 }
 
 // Timer is a discrete-event timer.
@@ -95,6 +96,9 @@ type Sched struct {
 	lastYieldWall int64
 	heldSites     [4]uintptr // where the hold strategy parked its victims
 	heldN         int
+	spawned       int
+	planned       int // tasks registered before Start (the rest were spawned by go statements)
+	ended         bool
 }
 
 // S is the scheduler of the run in progress; nil when no multi-task simulation is active.
@@ -134,7 +138,7 @@ func (s *Sched) intn(n int) int {
 //
 //go:norace
 func (s *Sched) AddTask(name string) int {
-	t := &task{id: len(s.tasks), name: name, state: stRunnable}
+	t := &task{id: len(s.tasks), name: name, state: stRunnable, s: s}
 	s.tasks = append(s.tasks, t)
 	return t.id
 }
@@ -179,6 +183,7 @@ func (s *Sched) prepare() {
 //
 //go:norace
 func (s *Sched) Start() {
+	s.planned = len(s.tasks)
 	s.prepare()
 	s.lastYieldWall = nowWall()
 	first := s.pick(nil)
@@ -197,15 +202,83 @@ func (s *Sched) TaskBegin(id int) {
 //go:norace
 func (t *task) park() {
 	for t.run == 0 {
+		if t.s != nil && t.s.ended {
+			// the simulation is over: a task that was still parked (a goroutine started by the
+			// code under test that never finished) blocks for good here instead of spinning;
+			// it must not run any more code of the run (deferred calls would reach the shims
+			// of the next simulation)
+			var never chan struct{}
+			<-never
+		}
 		runtime.Gosched()
 	}
 	t.run = 0
 }
 
+// Spawn registers a task created while the simulation runs (a go statement of the code
+// under test, translated to simchan.Go). The new task is runnable at once.
+//
+//go:norace
+func (s *Sched) Spawn(name string) int {
+	t := &task{id: len(s.tasks), name: name, state: stRunnable, s: s, prio: s.lowestPrio() - 1}
+	if len(s.tasks) == cap(s.tasks) {
+		n := make([]*task, len(s.tasks), 2*cap(s.tasks)+4)
+		copy(n, s.tasks)
+		s.tasks = n
+	}
+	s.tasks = s.tasks[:len(s.tasks)+1]
+	s.tasks[len(s.tasks)-1] = t
+	s.spawned++
+	return t.id
+}
+
+// Drain lets every other runnable task run until all of them are finished or blocked
+// (inline runs: called by the harness between operations and before the simulation ends).
+//
+//go:norace
+func (s *Sched) Drain() {
+	t := s.cur
+	if t == nil || s.dead || s.spawned == 0 {
+		return
+	}
+	for i := 0; i < 100000; i++ {
+		if !s.anyRunnableExcept(t, false) {
+			return
+		}
+		// give way: the current task counts as blocked until somebody made progress
+		t.state = stBlocked
+		t.blockEpoch = s.epoch
+		var next *task
+		for _, o := range s.tasks {
+			if o != t && s.runnable(o) {
+				next = o
+				break
+			}
+		}
+		if next == nil {
+			t.state = stRunnable
+			return
+		}
+		s.switchTo(t, next)
+		t.state = stRunnable
+	}
+}
+
+// MarkEnded is called when the simulation of a run is over.
+//
+//go:norace
+func (s *Sched) MarkEnded() { s.ended = true }
+
+//go:norace
+func (s *Sched) Spawned() int { return s.spawned }
+
 // TaskEnd is called by a task's goroutine when its script is finished.
 //
 //go:norace
 func (s *Sched) TaskEnd(id int) {
+	if s.ended {
+		return
+	}
 	t := s.tasks[id]
 	t.state = stDone
 	s.epoch++
@@ -466,6 +539,13 @@ func (s *Sched) Blocked(site uintptr) {
 	t.blockEpoch = s.epoch
 	next := s.pickOrAdvance(t)
 	if next == nil {
+		if t.id >= s.planned && s.plannedDone() {
+			// only goroutines started by the code under test are left, all blocked: not a
+			// deadlock of the calls under test; this one stays parked until the run ends
+			s.cur = nil
+			t.park()
+			return
+		}
 		s.fail("deadlock", "")
 		return
 	}
@@ -473,6 +553,26 @@ func (s *Sched) Blocked(site uintptr) {
 		s.switchTo(t, next)
 	}
 	t.state = stRunnable
+}
+
+//go:norace
+func (s *Sched) plannedDone() bool {
+	for i := 0; i < s.planned && i < len(s.tasks); i++ {
+		if s.tasks[i].state != stDone {
+			return false
+		}
+	}
+	return true
+}
+
+// WaitIdle is called by the harness goroutine after the planned tasks have finished: it
+// returns when no task is running any more (spawned tasks finished or blocked).
+//
+//go:norace
+func (s *Sched) WaitIdle() {
+	for s.cur != nil && !s.dead {
+		runtime.Gosched()
+	}
 }
 
 // Progress is called after a polled operation finally succeeded.
